@@ -231,7 +231,7 @@ Print Assumptions C02_fun2core_correct_partial.
    `label`/`goto` - as the disjointness of those binders from the free names of the continuation.
    Without it the statement is false: capture_witness satisfies frag, kd and ws but not nocap
    (C02_guard_rejects_capture_witness).
-   NOT COVERED: the exclusions listed above (no admits: frag/kd are false on them). *)
+   NOT COVERED: the exclusions listed above (frag/kd are false on them; no proof holes). *)
 Theorem C02_fun2core_correct_fragment2 :
   forall (p : fcprog) (c : cprog) (args : list Z) (n : nat) (o : obs),
     compile_prog p = Ok c ->
